@@ -73,6 +73,64 @@ def _array(name, n, spec, label, m=None, extra_args=None):
         c.replay("code", code=REPLAY_ARRAY)
 
 
+def _single_left(name, kind, spec, label, m=None):
+    """the left value is not an array: a hash, a string or a number is treated as the array [value]
+    (statement: 'return new lists with the documented membership' -- of ONE member here)"""
+    @contract(f"{ARR}:{name}", prop="C25", name=f"{name}[left value is a {kind}: treated as a one-item array]")
+    def sl(c):
+        c.eager_generators = True
+        std_globals(c)
+        if kind in ("hash", "empty hash"):
+            # a hash with two keys and arbitrary values (concrete spine, so the engine can also follow
+            # an implementation that iterates it), or the empty hash
+            left = c.dict(None, a=c.any("value_a"), b=c.any("value_b")) if kind == "hash" else c.dict(None)
+            lt = lambda r: box(left)  # noqa: E731
+        elif kind == "string":
+            left = c.str("text")
+            lt = lambda r: U.str(left.t)  # noqa: E731
+        else:
+            left = c.int("number")
+            lt = lambda r: U.int(left.t)  # noqa: E731
+        args = [left]
+        ys = []
+        if m is not None:
+            ys = _items(c, m, "y")
+            args.append(c.st.alloc(HList(items=list(ys))))
+
+        def post(r):
+            got = _result_seq(r)
+            if got is None:
+                return z3.BoolVal(False)
+            return got == spec(r, [lt(r)], [y.t for y in ys])
+        c.call(*args)
+        c.ensures(label, post)
+        c.raises()
+        c.crosscheck(off=True)
+        c.replay("code", code=REPLAY_SINGLE_LEFT)
+
+
+REPLAY_SINGLE_LEFT = r'''
+def run(m):
+    from liquid import Environment
+    env = Environment()
+    bad = []
+    data = {"h": {"a": 1, "b": 2}, "s": "ab", "n": 7, "e": {}}
+    for src, want in (("{{ h | reverse | size }}", "1"), ("{{ e | reverse | size }}", "1"), ("{{ h | compact | size }}", "1"), ("{{ h | uniq | size }}", "1"), ("{{ h | concat: arr | size }}", "3"),
+                      ("{{ s | reverse | join: '-' }}", "ab"), ("{{ n | concat: arr | join: '-' }}", "7-1-2")):
+        got = env.from_string(src).render(arr=[1, 2], **data)
+        if got != want:
+            bad.append((src, got, want))
+    return {"violated": bool(bad), "observed": bad[:4], "witness": "non-array-left-value-not-treated-as-one-item"}
+'''
+
+
+for _kind in ("hash", "empty hash", "string", "number"):
+    _single_left("reverse", _kind, lambda r, xs, ys: _seq_of(xs), "the-single-item")
+    _single_left("compact", _kind, lambda r, xs, ys: _seq_of(xs), "the-single-item(it-is-not-nil)")
+    _single_left("uniq", _kind, lambda r, xs, ys: _seq_of(xs), "the-single-item")
+    _single_left("concat", _kind, lambda r, xs, ys: _seq_of(xs + ys), "the-single-item-then-the-second-array", m=2)
+
+
 def _py_eq(r, a, b):
     """Python's == on two items of the tagged union, as the engine models it (True == 1)"""
     outs = r.engine.py_eq(r.st.fork(), VU(a), VU(b))
@@ -255,3 +313,45 @@ def run(m):
                     bad.append(("concat", keep, got))
     return {"violated": bool(bad), "observed": bad[:4], "witness": "array-filter"}
 '''
+
+
+# ---- sort / sort_natural with a key: "objects without the key are at the end"; records with
+# ---- CONSTANT key values (the order of constant strings is decided exactly)
+
+REPLAY_SORT_KEY = r'''
+def run(m):
+    from liquid import Environment
+    env = Environment()
+    bad = []
+    recs = [{"t": "pear", "i": 1}, {"i": 2}, {"t": "Zebra", "i": 3}, {"t": "apple", "i": 4}]
+    for src, want in (("{{ r | sort_natural: 't' | map: 'i' | join: '' }}", "4132"), ("{{ r | sort: 't' | map: 'i' | join: '' }}", "3412")):
+        got = env.from_string(src).render(r=recs)
+        if got != want:
+            bad.append((src, got, want))
+    return {"violated": bool(bad), "observed": bad, "witness": "records-without-the-key-not-last"}
+'''
+
+
+def _sort_key_contract(fname, values, want_order):
+    @contract(f"{ARR}:{fname}", prop="C25", name=f"{fname}[records keyed {values}: ordered by the key, records without it last]")
+    def sk(c):
+        c.eager_generators = True
+        std_globals(c)
+        recs = [c.dict(None, **({"t": const(v)} if v is not None else {}), i=c.any(f"other{i}")) for i, v in enumerate(values)]
+        lst = c.st.alloc(HList(items=list(recs)))
+        c.call(lst, const("t"))
+
+        def post(r):
+            items = r.engine.concrete_items(r.st, r.value)
+            return z3.BoolVal(items == [recs[j] for j in want_order] and r.value != lst)
+        c.ensures("sorted-by-the-key-with-keyless-records-at-the-end(a-new-list)", post)
+        c.raises()
+        c.crosscheck(off=True)
+        c.replay("code", code=REPLAY_SORT_KEY)
+
+
+_sort_key_contract("sort_natural", ("pear", None), (0, 1))
+_sort_key_contract("sort_natural", (None, "Zebra", "apple"), (2, 1, 0))
+_sort_key_contract("sort_natural", ("b", "A", None), (1, 0, 2))
+_sort_key_contract("sort", ("pear", None, "Zebra"), (2, 0, 1))
+_sort_key_contract("sort", (None, "z"), (1, 0))
